@@ -893,7 +893,9 @@ def setup_cases(run, exprs, descr):
             rt_ = idnt.rate_quality(
                 training_set=after["rating training set"],
                 regressor=after["rating regressor"])
-            if not (rt_ == -1 or 0 <= rt_ <= 10 or np.isnan(rt_)):
+            # (a regressor may extrapolate below 0 / above 10: any number
+            # is a rating; only a failure to rate would be a refusal)
+            if not isinstance(rt_, (int, float, np.integer, np.floating)):
                 fail(f"batch fit: rating {rt_!r}", "C19 (fit accepts)")
         except HarnessTimeout:
             run.count("batch-fit-time-limit")
@@ -979,6 +981,63 @@ def batch_cases(run):
         shutil.rmtree(d, ignore_errors=True)
 
 
+def batch_options_cases(run):
+    """a profile whose preprocessing steps carry options: the batch fit
+    preprocesses with exactly these options and reports the modulus a direct
+    fit with the profile's settings gives"""
+    from nanite import IndentationGroup
+    from nanite.cli import profile
+    from nanite.cli.rating import fit_data
+    fn = ("fmt-jpk-fd_single_tilted-baseline-drift-mitotic_2021-01-29"
+          ".jpk-force")
+    if not (DATA / fn).exists():
+        run.count("batch-options-data-missing")
+        return
+    steps = ["compute_tip_position", "correct_tip_offset",
+             "correct_force_slope", "correct_force_offset"]
+    for oi, opts in enumerate([
+            {"correct_tip_offset": {"method": "fit_line_polynomial"},
+             "correct_force_slope": {"region": "all", "strategy": "drift"}},
+            {"correct_force_slope": {"region": "approach",
+                                     "strategy": "shift"}}]):
+        d = scratch(f"batch-options-{oi}")
+        pf = profile.Profile(d / "p.cfg")
+        pf["model_key"] = "hertz_para"
+        pf["preprocessing"] = list(steps)
+        pf["preprocessing_options"] = copy.deepcopy(opts)
+        run.case({"batch-options": opts}, kind="batch-options")
+        key = f"batch-options:{oi}"
+        try:
+            with warnings.catch_warnings():
+                warnings.simplefilter("ignore")
+                got = fit_data.__wrapped__(DATA / fn, 0, d / "p.cfg")
+                ref = IndentationGroup(DATA / fn)[0]
+                ref.apply_preprocessing(list(steps), copy.deepcopy(opts))
+                pfit = profile.Profile(d / "p.cfg").get_fit_params()
+                ref.fit_model(model_key="hertz_para", params_initial=pfit,
+                              range_x=pf["range_x"],
+                              range_type=pf["range_type"],
+                              segment=pf["segment"],
+                              weight_cp=pf["weight_cp"])
+            why = None
+            if jtxt(got.preprocessing_options) != jtxt(opts):
+                why = (f"the batch fit preprocessed with the options "
+                       f"{got.preprocessing_options}, the profile stores "
+                       f"{opts}")
+            else:
+                ea = got.fit_properties["params_fitted"]["E"].value
+                eb = ref.fit_properties["params_fitted"]["E"].value
+                if abs(ea / eb - 1) > 1e-9:
+                    why = (f"the batch fit reports E = {ea!r}, a direct fit "
+                           f"with the profile's settings {eb!r}")
+        except BaseException as e:
+            why = f"raised {type(e).__name__}: {e}"
+        if why:
+            run.failing(SITE_FIT, key, f"profile with {opts}: {why}",
+                        payload={"kind": "rerun"}, theorem="C19 (statistics)")
+        shutil.rmtree(d, ignore_errors=True)
+
+
 def check(run):
     run.sources = common.source_digests(["src/nanite/cli/profile.py",
                                          "src/nanite/cli/rating.py"])
@@ -1013,6 +1072,7 @@ def check(run):
     legacy_model_cases(run)
     setup_cases(run, exprs, descr)
     batch_cases(run)
+    batch_options_cases(run)
     fits.eval_bool_cases(run, "c19_profile", exprs, descr, head=HEAD, chunk=40)
     run.extra["coq_cases"] = len(exprs)
     run.rule = ("random histories of writes / reads / new profile objects "
